@@ -17,33 +17,48 @@ open Qfx Qfx.Sess
 
 /-! ## 1. the model's reply is the plan -/
 
-/-- `resendLoop` enqueues exactly the plan of its walk and ends with the plan's two cursors (any session state, any list) -/
+/-- `resendLoop` enqueues exactly the plan of its walk and ends with the plan's two cursors (any session state, any list).
+    (`replayPlanR l` / `replyPlanR l` are the plans with header tag 369 = `l` on the gap fills — EnableLastMsgSeqNumProcessed —;
+    for `l = none` they are `replayPlan` / `replyPlan`: `C03_plan_without_tag`.) -/
 theorem C03_loop_follows_plan (s : Sess) (seqNum next : Int) (l : List (Int × OutMsg)) :
-    resendLoop s seqNum next l = (enqAll s (replayPlan seqNum next l).1, (replayPlan seqNum next l).2) :=
+    resendLoop s seqNum next l = (enqAll s (replayPlanR s.replyLast seqNum next l).1, (replayPlanR s.replyLast seqNum next l).2) :=
   resendLoop_eq s seqNum next l
 
 /-- `resendMessages` enqueues exactly `replyPlan` (both persistence modes, every range, every store) -/
 theorem C03_reply_is_plan (s : Sess) (b e : Int) :
-    resendMessages s b e = enqAll s (replyPlan s.cfg.persist s.store b e) :=
+    resendMessages s b e = enqAll s (replyPlanR s.replyLast s.cfg.persist s.store b e) :=
   resendMessages_eq s b e
+
+/-- the tagged plan differs from the plain one in the header tag of the gap fills only: same length, and element by
+    element the same kind, number and fields; without the tag they are equal -/
+theorem C03_plan_without_tag (l : Option Int) (p : Bool) (st : Store) (b e : Int) :
+    replyPlanR none p st b e = replyPlan p st b e
+    ∧ (replyPlanR l p st b e).map (fun m => (m.kind, m.seq, m.f)) = (replyPlan p st b e).map (fun m => (m.kind, m.seq, m.f)) := by
+  refine ⟨replyPlanR_none p st b e, ?_⟩
+  unfold replyPlanR replyPlan
+  rw [List.map_map, List.map_map]
+  apply List.map_congr_left
+  intro r _
+  obtain ⟨h1, h2, h3⟩ := Rep.outR_view l r
+  simp [h1, h2, h3]
 
 /-- with a connection, the reply goes out at once: the observations are the writes of the queue (what `enqueueAndSend`
     keeps of it: everything when logged on, nothing otherwise) followed by the plan, in order; nothing else changes -/
 theorem C03_reply_wires (s : Sess) (b e : Int) (ho : s.out = true) (m : OutMsg) (rest : List OutMsg)
-    (hp : replyPlan s.cfg.persist s.store b e = m :: rest) :
+    (hp : replyPlanR s.replyLast s.cfg.persist s.store b e = m :: rest) :
     resendMessages s b e = s.wrote (s.keptQueue ++ m :: rest) := by
   rw [resendMessages_eq, hp, enqAll_out s m rest ho]
 
 /-- an empty plan changes nothing at all -/
-theorem C03_reply_nothing (s : Sess) (b e : Int) (hp : replyPlan s.cfg.persist s.store b e = []) :
+theorem C03_reply_nothing (s : Sess) (b e : Int) (hp : replyPlanR s.replyLast s.cfg.persist s.store b e = []) :
     resendMessages s b e = s := by
   rw [resendMessages_eq, hp]; rfl
 
 /-- with an empty queue the wires of the reply are exactly the plan -/
 theorem C03_reply_wires_exact (s : Sess) (b e : Int) (ho : s.out = true) (hq : s.toSend = []) :
-    (resendMessages s b e).log = ((replyPlan s.cfg.persist s.store b e).map Obs.wire).reverse ++ s.log := by
+    (resendMessages s b e).log = ((replyPlanR s.replyLast s.cfg.persist s.store b e).map Obs.wire).reverse ++ s.log := by
   rw [resendMessages_eq]
-  cases hp : replyPlan s.cfg.persist s.store b e with
+  cases hp : replyPlanR s.replyLast s.cfg.persist s.store b e with
   | nil => rfl
   | cons m rest =>
     rw [enqAll_out s m rest ho]
@@ -57,7 +72,7 @@ theorem C03_reply_wires_exact (s : Sess) (b e : Int) (ho : s.out = true) (hq : s
 theorem C03_handleResendRequest (s s1 : Sess) (m : InMsg) (b e : Int)
     (hv : verifySelect s m false false true = (s1, none)) (hb : getInt m 7 = .val b) (he : getInt m 16 = .val e) :
     handleResendRequest s m =
-      (let s2 := resendMessages s1 b (clipEnd s1.cfg s1.store.sender e)
+      (let s2 := resendMessages (s1.setReplyLast (replyLastOf s1 m)) b (clipEnd s1.cfg s1.store.sender e)
        if (checkTooLow s2 m).isSome then (s2, .inSession)
        else if (checkTooHigh s2 m).isSome then (s2, .inSession)
        else (incrTarget s2, .inSession)) := by
@@ -79,7 +94,7 @@ theorem C03_resend_request_event (s : Sess) (m : InMsg) (b e : Int)
     (hv : verifySelect s.clearLog m false false true = (s.clearLog.emit (.fromAdmin "2" (seqText m)), none)) :
     (step s (.incomingMsg (some m))).2.1 =
       [Obs.fromAdmin "2" (seqText m)]
-      ++ (replyPlan s.cfg.persist s.store b (clipEnd s.cfg s.store.sender e)).map Obs.wire
+      ++ (replyPlanR (replyLastOf s m) s.cfg.persist s.store b (clipEnd s.cfg s.store.sender e)).map Obs.wire
       ++ (if (checkTooLow s m).isSome || (checkTooHigh s m).isSome then [] else [Obs.incT])
       ++ [Obs.armPeer (1200 * s.hb)] := by
   unfold step stepCore
@@ -100,10 +115,13 @@ theorem C03_resend_request_event (s : Sess) (m : InMsg) (b e : Int)
     simp [hk]
   rw [hfix, C03_handleResendRequest s.clearLog _ m b e hv hb he]
   simp only []
-  generalize hx : s.clearLog.emit (.fromAdmin "2" (seqText m)) = x
+  generalize hx : (s.clearLog.emit (.fromAdmin "2" (seqText m))).setReplyLast (replyLastOf (s.clearLog.emit (.fromAdmin "2" (seqText m))) m) = x
   have hxo : x.out = true := by rw [← hx]; exact hout
   have hxq : x.toSend = [] := by rw [← hx]; exact hq
-  rw [resendMessages_shape x b _ hxo hxq]
+  have hxr : x.replyLast = replyLastOf s m := by rw [← hx]; rfl
+  have hcl : clipEnd (s.clearLog.emit (.fromAdmin "2" (seqText m))).cfg (s.clearLog.emit (.fromAdmin "2" (seqText m))).store.sender e
+      = clipEnd x.cfg x.store.sender e := by rw [← hx]; rfl
+  rw [hcl, resendMessages_shape x b _ hxo hxq, hxr]
   have hxc : x.cfg = s.cfg := by rw [← hx]; rfl
   have hxs : x.store = s.store := by rw [← hx]; rfl
   have hxl : x.log = [.fromAdmin "2" (seqText m)] := by rw [← hx]; rfl
